@@ -440,7 +440,7 @@ static int gen_server_set(vh_rng_t *r, cfg_srv_t *s, int max, int allow_ll, unsi
       *cls |= SC_V6;
     } else {
       static const char *const ifs[]  = { "lo", "eth0", "wlan0" };
-      static const char *const pifs[] = { "vpn0", "vpn1" };
+      static const char *const pifs[] = { "vpn0", "vpn1", "enP2p1s0", "Br-LAN" };
       gen_ipv6_ll(r, s[i].text);
       s[i].family = AF_INET6;
       ares_inet_pton(AF_INET6, s[i].text, s[i].addr);
